@@ -11,11 +11,15 @@ sys.path.insert(0, HERE)
 
 
 def run_suite(root):
-    p = subprocess.run(['/venv/bin/python', '-m', 'pytest', '-q', '-p', 'no:cacheprovider', '--timeout=60', '-x',
-                        '--deselect', 'aiuti/asyncio.py::aiuti.asyncio.to_async_iter',
-                        '--deselect', 'aiuti/asyncio.py::aiuti.asyncio.to_sync_iter'],
-                       cwd=root, capture_output=True, text=True, timeout=1200,
-                       env=dict(os.environ, PYTHONPATH=root, PYTHONDONTWRITEBYTECODE='1'))
+    try:
+        p = subprocess.run(['/venv/bin/python', '-m', 'pytest', '-q', '-p', 'no:cacheprovider', '--timeout=60', '-x',
+                            '--deselect', 'aiuti/asyncio.py::aiuti.asyncio.to_async_iter',
+                            '--deselect', 'aiuti/asyncio.py::aiuti.asyncio.to_sync_iter'],
+                           cwd=root, capture_output=True, text=True, timeout=400,
+                           env=dict(os.environ, PYTHONPATH=root, PYTHONDONTWRITEBYTECODE='1'))
+    except subprocess.TimeoutExpired:
+        subprocess.run(['pkill', '-f', root])
+        return False, 'suite hangs'
     tail = p.stdout.strip().splitlines()[-1] if p.stdout.strip() else ''
     return p.returncode == 0, tail
 
